@@ -81,9 +81,9 @@ def run(ctx):
     if not ctx.build():
         return
     dags = []
-    for _ in range(ctx.scale(1500, 60000)):
+    for _ in range(ctx.scale(1500, 20000)):
         dags.append(gen_dag.gen_dag(r))
-    for _ in range(ctx.scale(300, 10000)):
+    for _ in range(ctx.scale(300, 4000)):
         dags.append(gen_dag.from_tree(gen.gen_tree(r, share=r.choice([0.0, 0.3]))))
     for n in (ctx.scale([200, 1500], [200, 1500, 6000])):
         dags.append(gen_dag.from_tree(gen.deep_list(r, n, right=True)))
@@ -99,7 +99,9 @@ def run(ctx):
         na, npairs = d.stats()
         ctx.histogram("nodes", "<=3" if d.expanded() <= 3 else "<=30" if d.expanded() <= 30 else "<=300" if d.expanded() <= 300 else ">300")
         cases.append("tab " + s)
-        if d.hashed_bytes() <= 2500 or (ctx.thorough and d.hashed_bytes() <= 20000):
+        # the extracted SHA-256 costs ~25 ms/KB: the model hashes only small trees (the search below checks
+        # the tree hash of every tree against hashlib)
+        if d.hashed_bytes() <= 2500 or (ctx.thorough and d.hashed_bytes() <= 8000 and r.random() < 0.3):
             cases.append("eq " + s)
         full.append((d, "tabfull " + s))
     def nontrivial(c, a, b):
